@@ -23,9 +23,15 @@ package zapcore
 import "sync"
 
 type lazyWithCore struct {
+	// Core is the wrapped core. It is never replaced, so Enabled (promoted
+	// from it) needs no synchronization with the deferred With.
 	Core
 	sync.Once
 	fields []Field
+
+	// withCore is Core.With(fields); it is set by initOnce and must only be
+	// read after calling it.
+	withCore Core
 }
 
 // NewLazyWith wraps a Core with a "lazy" Core that will only encode fields if
@@ -39,16 +45,26 @@ func NewLazyWith(core Core, fields []Field) Core {
 
 func (d *lazyWithCore) initOnce() {
 	d.Once.Do(func() {
-		d.Core = d.Core.With(d.fields)
+		d.withCore = d.Core.With(d.fields)
 	})
 }
 
 func (d *lazyWithCore) With(fields []Field) Core {
 	d.initOnce()
-	return d.Core.With(fields)
+	return d.withCore.With(fields)
 }
 
 func (d *lazyWithCore) Check(e Entry, ce *CheckedEntry) *CheckedEntry {
 	d.initOnce()
-	return d.Core.Check(e, ce)
+	return d.withCore.Check(e, ce)
+}
+
+func (d *lazyWithCore) Write(e Entry, fields []Field) error {
+	d.initOnce()
+	return d.withCore.Write(e, fields)
+}
+
+func (d *lazyWithCore) Sync() error {
+	d.initOnce()
+	return d.withCore.Sync()
 }
